@@ -1,1 +1,76 @@
+(* C15 - Relative name resolution follows protoc scoping.  Statements only; proofs are in
+   Proofs/Resolve.v.  go_resolve mirrors linker/resolve.go as it is; Spec.lookup is protoc's
+   LookupSymbolNoPlaceholder; go_resolve_fixed is the proposed repair (one scope per package prefix). *)
+From Coq Require Import List NArith Bool.
 From PV Require Import Model.Resolve Model.ProtocLookup Proofs.Resolve.
+Import ListNotations.
+
+(* CreatePrefixList of a package with components cs: every non-empty prefix, longest first, then
+   the empty string (prefixes_desc cs = [cs; ...; [c1]; []]) *)
+Theorem C15_create_prefix_list_spec : forall cs, Forall (fun c => simple c = true) cs ->
+  create_prefix_list (join_dots cs) = map join_dots (prefixes_desc cs).
+Proof. exact create_prefix_list_spec_lemma. Qed.
+Print Assumptions C15_create_prefix_list_spec.
+
+(* a leading dot bypasses scoping: the answer does not depend on the enclosing scopes or on the
+   mode, and it is protoc's FindSymbol of the rest of the name *)
+Theorem C15_resolve_absolute : forall U path ot n,
+  go_resolve U path (dot :: n) ot = resolve_element U n /\
+  (wf_universe U = true -> starts_with_dot n = false ->
+   Spec.to_spec U (go_resolve U path (dot :: n) ot) = Spec.of_find n (Spec.find_symbol U n)).
+Proof. exact resolve_absolute_lemma. Qed.
+Print Assumptions C15_resolve_absolute.
+
+(* the fuel of the specification loop never runs out *)
+Theorem C15_lookup_total : forall U relative_to nm m, Spec.lookup U relative_to nm m <> Spec.SOutOfFuel.
+Proof. exact lookup_total_lemma. Qed.
+Print Assumptions C15_lookup_total.
+
+(* the code as it is does NOT follow protoc: an unqualified type reference stops at a non-type
+   found at a package level of the file although an outer package level holds a type *)
+Theorem C15_resolve_eq_protoc_refuted :
+  exists U path elem nm m,
+    wf_universe U = true /\ scope_ok U path elem = true /\ double_dot nm = false /\
+    go_resolve U path nm (Spec.only_types m) = GDesc [97;46;98;46;120]%N KExtension /\
+    Spec.lookup U (relative_to U path elem) nm m = Spec.SFound [97;46;120]%N (Spec.SK KMessage) /\
+    Spec.outcome_of m (Spec.to_spec U (go_resolve U path nm (Spec.only_types m)))
+    <> Spec.outcome_of m (Spec.lookup U (relative_to U path elem) nm m).
+Proof. exact resolve_eq_protoc_refuted_lemma. Qed.
+Print Assumptions C15_resolve_eq_protoc_refuted.
+
+(* ... and it does follow protoc for every universe, scope, name and mode under the guard:
+   the lookup is not LOOKUP_TYPES, or the name is qualified, or no package level of the file
+   holds a non-type (element or sub-package) with that name *)
+Theorem C15_resolve_eq_protoc_partial : forall U path elem nm m,
+  wf_universe U = true -> scope_ok U path elem = true -> double_dot nm = false -> guard U nm m = true ->
+  Spec.outcome_of m (Spec.to_spec U (go_resolve U path nm (Spec.only_types m)))
+  = Spec.outcome_of m (Spec.lookup U (relative_to U path elem) nm m).
+Proof. exact resolve_eq_protoc_partial_lemma. Qed.
+Print Assumptions C15_resolve_eq_protoc_partial.
+
+(* the proposed repair follows protoc without the guard: same element, or both fail with the same
+   kind of failure (nothing found / resolved to a name that is not defined / not a type) *)
+Theorem C15_repaired_resolve_eq_protoc : forall U path elem nm m,
+  wf_universe U = true -> scope_ok U path elem = true -> double_dot nm = false ->
+  Spec.outcome_of m (Spec.to_spec U (go_resolve_fixed U path nm (Spec.only_types m)))
+  = Spec.outcome_of m (Spec.lookup U (relative_to U path elem) nm m).
+Proof. exact repaired_resolve_eq_protoc_lemma. Qed.
+Print Assumptions C15_repaired_resolve_eq_protoc.
+
+(* outside the grammar: a reference with two leading dots (descriptor input only) is resolved by
+   the Go code (two more dots are stripped on the way) and is unknown to protoc *)
+Theorem C15_double_dot_diverges :
+  go_resolve ex_U [[77]%N] [46;46;97;46;120]%N true = GDesc [97;46;120]%N KMessage /\
+  Spec.lookup ex_U (relative_to ex_U [[77]%N] [102]%N) [46;46;97;46;120]%N Spec.LookupTypes = Spec.SNone.
+Proof. exact double_dot_diverges_lemma. Qed.
+Print Assumptions C15_double_dot_diverges.
+
+(* non-vacuity: a well-formed universe with a scope; the guard holds for a qualified and fails for
+   the unqualified spelling; the repaired algorithm finds the message *)
+Example C15_nonvacuous :
+  wf_universe ex_U = true /\ scope_ok ex_U [[77]%N] [102]%N = true /\
+  guard ex_U [97;46;120]%N Spec.LookupTypes = true /\ guard ex_U [120]%N Spec.LookupTypes = false /\
+  go_resolve ex_U [[77]%N] [97;46;120]%N true = GDesc [97;46;120]%N KMessage /\
+  go_resolve_fixed ex_U [[77]%N] [120]%N true = GDesc [97;46;120]%N KMessage /\
+  create_prefix_list [97;46;98]%N = [[97;46;98]%N; [97]%N; []].
+Proof. exact resolve_example. Qed.
